@@ -106,6 +106,20 @@ def rules(ctx, db):
                                     any(any(isinstance(e, list) and e[0] == "f" and e[2] == bound for e in pl["p"]) for pl in places):
                                 ok = True
                 ctx.ob("R2", "pool-buffer-clamps:%s<=%s" % (fld, bound), ok, "BufferRef::%s clamps %s to %s" % (nm, fld, bound), f)
+        for f in [g for g in db.fns.values() if g.impl and g.impl.get("self_adt") == br and g.short == "set_capacity"]:
+            wc = [bi for bi, si, s in f.stmts() if "a" in s and any(isinstance(e, list) and e[0] == "f" and e[2] == "cap" for e in s["a"]["p"])]
+            wl = [bi for bi, si, s in f.stmts() if "a" in s and any(isinstance(e, list) and e[0] == "f" and e[2] == "len" for e in s["a"]["p"])]
+            okk = bool(wc) and bool(wl)
+            for bl in wl:
+                # position inside one block matters too: compare (block, statement index)
+                pos_c = [(bi, si) for bi, si, s in f.stmts() if "a" in s and any(isinstance(e, list) and e[0] == "f" and e[2] == "cap" for e in s["a"]["p"])]
+                pos_l = [(bi, si) for bi, si, s in f.stmts() if "a" in s and any(isinstance(e, list) and e[0] == "f" and e[2] == "len" for e in s["a"]["p"])]
+                for (lb, ls) in pos_l:
+                    if not any((cb == lb and cs < ls) or (cb != lb and f.cfg.dominates(cb, lb)) for (cb, cs) in pos_c):
+                        okk = False
+            ctx.ob("R2", "pool-buffer-len-clamped-to-new-cap", okk,
+                   "set_capacity clamps len against the *new* capacity (cap is assigned before len is clamped): shrinking a "
+                   "filled pool buffer must not leave len > cap", f)
         for nm, fld in (("deref", "len"), ("deref_mut", "len"), ("as_uninit", "cap")):
             fs = [f for f in db.fns.values() if f.impl and f.impl.get("self_adt") == br and f.short == nm]
             for f in fs:
